@@ -109,6 +109,26 @@ def global_state_scan(chk, repo, classes=FOOTPRINT_CLASSES, modules=None):
                     through = True
                 if through:
                     shared.append("%s:%d %s writes %s" % (rel, n.lineno, fn.name, ast.unparse(tgt)[:80]))
+        # frame: no process-wide interpreter / numpy state (error mode, RNG seed, print options, warning filters ...): another
+        # solver's objective is evaluated under it.  `with np.errstate(...)` restores on every exit and is allowed.
+        from .c15 import GLOBAL_MUTATORS
+        with_calls = set()
+        for n in ast.walk(mi.tree):
+            if isinstance(n, ast.With):
+                for it in n.items:
+                    if isinstance(it.context_expr, ast.Call):
+                        with_calls.add(it.context_expr)
+        pw = []
+        for n in ast.walk(mi.tree):
+            if isinstance(n, ast.Call) and n not in with_calls:
+                f = n.func
+                name = f.attr if isinstance(f, ast.Attribute) else getattr(f, "id", "")
+                if name in GLOBAL_MUTATORS and not (isinstance(f, ast.Attribute) and isinstance(f.value, ast.Name) and f.value.id == "self"):
+                    pw.append("%s:%d %s" % (rel, n.lineno, ast.unparse(f)))
+        chk.add_lemma("frame:process-wide-state:%s" % rel, "proved" if not pw else "refuted", "syntactic-scan", 0.0,
+                      clause="no function of %s changes process-wide interpreter / numpy state (error mode, RNG seed, print "
+                             "options, warning filters, environment) outside a `with` block that restores it" % rel, func=rel,
+                      model=None if not pw else {"sites": pw[:8]})
         chk.add_lemma("frame:shared-user-objects:%s" % rel, "proved" if not shared else "refuted", "syntactic-scan", 0.0,
                       clause="no function of %s writes into the user's Problem / SolverParameters objects (shared between "
                              "solvers)" % rel, func=rel, model=None if not shared else {"sites": shared[:10]})
